@@ -94,8 +94,8 @@ def expected_id(setter, known):
 
 
 def expected_value(pid, dev):
-    """vendor WRITE encoding of the current setting for a property id"""
-    bm = int(dev._breeze_mode)
+    """vendor WRITE encoding of the current setting for a property id (read through the public attributes)"""
+    bm = 2 if dev.breeze_away else 3 if dev.breeze_mild else 4 if dev.breezeless else 1
     if pid == 0x42:
         return bytes([2 if bm == 2 else 1])
     if pid == 0x43:
@@ -103,15 +103,15 @@ def expected_value(pid, dev):
     if pid == 0x18:
         return bytes([1 if bm == 4 else 0])
     if pid == 0xE3:
-        return bytes([0, 1, 1 if dev._ieco else 0]) + bytes(10)
+        return bytes([0, 1, 1 if dev.ieco else 0]) + bytes(10)
     if pid == 0x48:
-        return bytes([int(dev._rate_select)])
+        return bytes([int(dev.rate_select)])
     if pid == 0x0A:
-        return bytes([int(dev._horizontal_swing_angle)])
+        return bytes([int(dev.horizontal_swing_angle)])
     if pid == 0x09:
-        return bytes([int(dev._vertical_swing_angle)])
+        return bytes([int(dev.vertical_swing_angle)])
     if pid == 0x1A:
-        return bytes([1 if dev._beep_on else 0])
+        return bytes([1 if dev.beep else 0])
     raise KeyError(pid)
 
 
